@@ -48,6 +48,7 @@ def builtin_attrs():
 def build_init(i):
     cols = INITS[i]
     d = V.frame(cols) if cols else di.DataFrame()
+    d.nrow, d.ncol, d.colnames
     M = T([[c[0], V.cells(d[c[0]])] for c in cols])
     return d, M, set(M.names)
 
@@ -698,6 +699,8 @@ def replay(init, history):
                 M = T([[nm, mm[nm]] for nm in dict.keys(out)])
         seen = (set(seen) | set(dict.keys(out))) if inplace else set(dict.keys(out))
         d = out
+        # a user looks at the frame between operations: reading these properties is always possible and must be harmless
+        d.nrow, d.ncol, d.colnames
     return d, M, seen
 
 
